@@ -26,7 +26,7 @@ Readings (see vt/checks/c11.py for the list reported in the evidence):
     other directives; a Note or a Document has tags/links of its own and an Event a description of its own:
     for those NULL or the directive's own attribute is accepted;
   * ``cost_label`` without cost: NULL or ''; ``any_meta`` with a key explicitly NULL on the posting: NULL or
-    the transaction's value; ``any_meta`` on a posting without metadata: NULL or the transaction's value.
+    the transaction's value.
 """
 import copy
 import datetime
@@ -325,7 +325,7 @@ def any_meta_lookup(p, e, key):
     """any_meta(key): the posting's value, else the transaction's."""
     ev = e.meta.get(key)
     if p.meta is None:
-        return OneOf(None, ev)              # "NULL for postings without metadata" vs posting-then-transaction
+        return None                         # the property is explicit: "NULL ... for postings without metadata"
     if key in p.meta:
         pv = p.meta[key]
         if pv is None:
